@@ -501,7 +501,7 @@ impl<'a> Analyzer<'a> {
     }
     let Op::Req(_, oc) = self.stmt_op(c, stmt) else { return; };
     // C09: the stamp of the require is taken from the output returned to the requirer.
-    if matches!(oc, OC::Equals | OC::IsZero | OC::Always) {
+    if matches!(oc, OC::Equals | OC::IsZero | OC::Always | OC::Near) {
       match win.oc_stamps.last() {
         Some((soc, sout, sst)) if *soc == oc && *sout == out && *sst == oc.stamp_of(out) => {}
         other => {
@@ -685,7 +685,7 @@ impl<'a> Analyzer<'a> {
       TrkEv::RequireStart(task, _) => self.begin_consistent(s, *task),
       TrkEv::RequireEnd(task, ..) => self.end_consistent(s, *task),
       TrkEv::CheckTaskStart(u, oc, stamp) => {
-        self.expect_next_dep(s, Target::Task(*u), format!("Req(T{},{:?},{:?})", u, oc, stamp), |d| matches!(d, Dep::Req(uu, o, st) if uu == u && o == oc && st == stamp));
+        self.expect_next_dep(s, Target::Task(*u), format!("Req(T{},{:?},{:?})", u, oc, stamp), |d| matches!(d, Dep::Req(uu, o, st) if uu == u && o == oc && st == stamp), |d| matches!(d, Dep::Req(uu, o, _) if uu == u && o == oc));
         self.begin_consistent(s, *u);
       }
       TrkEv::CheckTaskEnd(u, oc, stamp, inc) => {
@@ -700,7 +700,8 @@ impl<'a> Analyzer<'a> {
       }
       TrkEv::CheckResStart(r, rc, stamp) => {
         self.expect_next_dep(s, Target::Res(*r), format!("Read|Write(r{},{:?},{:?})", r, rc, stamp),
-          |d| matches!(d, Dep::Read(rr, c, st) | Dep::Write(rr, c, st) if rr == r && c == rc && st == stamp));
+          |d| matches!(d, Dep::Read(rr, c, st) | Dep::Write(rr, c, st) if rr == r && c == rc && st == stamp),
+          |d| matches!(d, Dep::Read(rr, c, _) | Dep::Write(rr, c, _) if rr == r && c == rc));
       }
       TrkEv::CheckResEnd(r, rc, stamp, res) => {
         let model = self.model_res_verdict(s, *r, *rc, *stamp);
@@ -738,7 +739,7 @@ impl<'a> Analyzer<'a> {
   }
 
   /// The check that starts now must be the next recorded dependency of the task being validated.
-  fn expect_next_dep(&mut self, s: &mut Session, target: Target, shown: String, pred: impl Fn(&Dep) -> bool) {
+  fn expect_next_dep(&mut self, s: &mut Session, target: Target, shown: String, pred: impl Fn(&Dep) -> bool, same_edge: impl Fn(&Dep) -> bool) {
     let (task, expected, had_output) = match s.frames.last() {
       Some(Frame::Validate { task, deps, next, had_output, .. }) => (*task, deps.get(*next).copied(), *had_output),
       other => {
@@ -749,6 +750,12 @@ impl<'a> Analyzer<'a> {
     };
     if !had_output { return; } // leftovers of an aborted execution: order not judged (C19 judges the outcome)
     let ok = expected.map(|d| pred(&d)).unwrap_or(false);
+    if !ok && expected.map(|d| same_edge(&d)).unwrap_or(false) {
+      // the right dependency in the right place, but checked against a stamp that is not the one taken when the
+      // dependency was created
+      self.add(s, &[Prop::C09, Prop::C08], "stamp-not-from-creation", "",
+        format!("validation of T{}: pie checks {} but the stamp taken when that dependency was created is {:?}", task, shown, expected));
+    }
     if !ok {
       let _ = target;
       self.add(s, &[Prop::C02], "validation-order", "",
